@@ -446,6 +446,46 @@ seed("C18", "reader-drops-frames-when-queue-long", "the reader forwards a frame 
 seed("C18", "writer-skips-empty-looking-frames", "the writer skips frames whose first byte is zero", ["C18.W2"],
      ("cmd/thermal-writer/main.go", "\t\t\tif err := writeFrame(builder, frame); err != nil {\n\t\t\t\tpanic(err)\n\t\t\t}\n", "\t\t\tif frame[0] != 0 {\n\t\t\t\tif err := writeFrame(builder, frame); err != nil {\n\t\t\t\t\tpanic(err)\n\t\t\t\t}\n\t\t\t}\n"))
 
+
+# ---- found by the mechanical sweep (sweep/): polarity of error / nil tests, lock pairing, request consumption
+HDR = "headers/headerinfo.go"
+SNAP = "cmd/thermal-recorder/snapshot.go"
+SVC = "cmd/thermal-recorder/service.go"
+LEP = "cmd/leptond/main.go"
+TRAW = "cmd/thermal-writer/thermalraw.go"
+BUFF = "cmd/thermal-writer/bufferedfile.go"
+RCONF = "cmd/thermal-recorder/config.go"
+seed("C14", "sweep-blank-line-test-negated", "the header loop leaves at the first NON-blank line", ["C14.M4"],
+     (HDR, 'if strings.Trim(line, " ") == "\\n" {', 'if !(strings.Trim(line, " ") == "\\n") {'))
+seed("C14", "sweep-yaml-error-test-reversed", "the YAML error is returned when it is nil", ["C14.M4"],
+     (HDR, "\terr := yaml.Unmarshal(buf.Bytes(), &h)\n\tif err != nil {", "\terr := yaml.Unmarshal(buf.Bytes(), &h)\n\tif err == nil {"))
+seed("C14", "sweep-toint-ok-reversed", "toInt returns 0 exactly when the assertion succeeded", ["C14.M5"],
+     (HDR, "\tout, ok := v.(int)\n\tif !ok {", "\tout, ok := v.(int)\n\tif ok {"))
+seed("C14", "sweep-blank-line-after-failed-write", "leptond writes the blank line only when the description could NOT be written", ["C14.M6"],
+     (LEP, "if _, err := conn.Write(cameraYAML); err != nil {", "if _, err := conn.Write(cameraYAML); err == nil {"))
+seed("C10", "sweep-cleanup-error-test-reversed", "start-up goes on after a FAILED clean-up and aborts after a successful one", ["C10.D4"],
+     (MAIN, "if err := deleteTempFiles(conf.OutputDir); err != nil {", "if err := deleteTempFiles(conf.OutputDir); err == nil {"))
+seed("C18", "sweep-flush-error-test-reversed", "Close returns early when the flush SUCCEEDED", ["C18.W4"],
+     (BUFF, "if err := bf.w.Flush(); err != nil {", "if err := bf.w.Flush(); err == nil {"))
+seed("C18", "sweep-section-write-test-reversed", "the frame section stops after its first successful write", ["C18.W5"],
+     (TRAW, "\t_, err = b.w.Write(fieldData)\n\tif err != nil {", "\t_, err = b.w.Write(fieldData)\n\tif err == nil {"))
+seed("C16", "sweep-handler-unlock-dropped", "the connection handler publishes the processor and keeps the mutex", ["C16.R4"],
+     (MAIN, "\tmu.Lock()\n\tprocessor = newProcessor\n\tmu.Unlock()\n", "\tmu.Lock()\n\tprocessor = newProcessor\n"))
+seed("C16", "sweep-requester-defer-unlock-dropped", "newSnapshot never releases the package mutex", ["C16.R4"],
+     (SNAP, "func newSnapshot(lastFrame int) (*cptvframe.Frame, error) {\n\tmu.Lock()\n\tdefer mu.Unlock()\n", "func newSnapshot(lastFrame int) (*cptvframe.Frame, error) {\n\tmu.Lock()\n"))
+seed("C16", "sweep-nil-processor-test-reversed", "a snapshot request before the first connection dereferences the nil processor", ["C16.R4"],
+     (SNAP, "\tif processor == nil {\n\t\treturn nil, errors.New(\"reading from camera has not started yet\")", "\tif processor != nil {\n\t\treturn nil, errors.New(\"reading from camera has not started yet\")"))
+seed("C17", "sweep-request-cas-reversed", "the request flag is compared and swapped the wrong way round (a test recording on every idle frame)", ["C17.V3"],
+     (MP, "atomic.CompareAndSwapUint32(&mp.startSnapshot, 1, 0)", "atomic.CompareAndSwapUint32(&mp.startSnapshot, 0, 1)"))
+seed("C17", "sweep-constant-mode-flag-false", "SetAsConstantRecorder stores false", ["C17.V5"],
+     (CF, "\tcfr.constantRecorder = true\n", "\tcfr.constantRecorder = false\n"))
+seed("C11", "sweep-recorder-drops-frames", "the file recorder's WriteFrame returns nil without writing", ["C11.H1"],
+     (CF, "\treturn fw.writer.WriteFrame(frame)\n", "\treturn nil\n"))
+seed("C11", "sweep-section-error-test-reversed", "ParseConfig goes on with defaults when a section cannot be decoded", ["C11.H3"],
+     (RCONF, "\tif err := configRW.Unmarshal(goconfig.LocationKey, &locationConfig); err != nil {", "\tif err := configRW.Unmarshal(goconfig.LocationKey, &locationConfig); err == nil {"))
+seed("C11", "sweep-motion-config-from-output-dir", "the motion settings are read from another directory than the daemon's configuration", ["C11.H3"],
+     (RCONF, "goconfig.New(c.ConfigDir)", "goconfig.New(c.OutputDir)"))
+
 here = os.path.dirname(os.path.abspath(__file__))
 for pid, name, d in S:
     os.makedirs(os.path.join(here, pid), exist_ok=True)
